@@ -1,5 +1,6 @@
 import Verif.Proofs.ReplaceKeys
 import Verif.Proofs.UrlLemmas
+import Verif.Proofs.UpdateFrame
 import Verif.Properties.C12
 
 /-!
@@ -124,5 +125,24 @@ theorem rewriteSchemaToRef_under_not (d : J) (key ref : String) (n : J)
 /-- … and such keys exist -/
 example : walk .swagger exampleDoc ["definitions", "a/b", "not"] = some (.obj [("type", .str "integer")], .notPtr) := by
   rfl
+
+/-! ### `UpdateRef` keeps the keys below the schema it rewrites valid
+
+The phases work on a stale index between two reloads: a key recorded for a position *below* a schema whose
+`$ref` has just been rewritten must still resolve.  Since the repair `076e7ce` it does, for every document: -/
+
+/-- after `UpdateRef` the schema at the key carries the new `$ref` -/
+theorem updateRef_sets_ref (d : J) (key ref : String) (d' : J) (h : updateRef d key ref = .ok d') :
+    ∃ node, Spec.Pointer.get d (keyTokens key) = some node ∧
+      Spec.Pointer.get d' (keyTokens key) = some (node.set "$ref" (.str ref)) :=
+  Proofs.UpdateFrame.updateRef_sets d key ref d' h
+
+/-- … and every sibling keyword of that `$ref`, with everything below it, is found unchanged under the same
+    pointer (before the repair a `spec.Schema` held in a map or slice was replaced wholesale and these
+    positions were gone: scenario `remote-ref-siblings`) -/
+theorem updateRef_keeps_siblings (d : J) (key ref : String) (d' : J) (h : updateRef d key ref = .ok d')
+    (t : String) (ht : t ≠ "$ref") (rest : List String) :
+    Spec.Pointer.get d' (keyTokens key ++ t :: rest) = Spec.Pointer.get d (keyTokens key ++ t :: rest) :=
+  Proofs.UpdateFrame.updateRef_keeps_siblings d key ref d' h t ht rest
 
 end C04
